@@ -53,6 +53,9 @@ def connection(draw):
         k = draw(st.sampled_from(KINDS + [None, None, None]))
         if k:
             faults.append((verb.decode(), 0, k))
+    if draw(st.integers(0, 3)) == 0:
+        faults.append((draw(st.sampled_from(["LISTSCRIPTS", "GETSCRIPT", "HAVESPACE", "SETACTIVE", "DELETESCRIPT", "PUTSCRIPT"])), 0,
+                       draw(st.sampled_from(["BYE", "BYE", "NO", "SILENCE"]))))
     cfg["faults"] = faults
     return {"cfg": cfg, "starttls": draw(st.booleans()), "handshake_ok": draw(st.sampled_from([True, True, False])),
             "authmech": draw(st.sampled_from([None, None, "PLAIN", "LOGIN"]))}
@@ -94,10 +97,29 @@ def run(steps, introspect=False):
     fails = []
     info = {"nontrivial": False, "classes": set()}
 
+    pending = []
+    FALLBACK = {"cfg": {"starttls": False, "sasl": ["PLAIN", "LOGIN"], "sasl_tls": None, "version": True, "auth_ok": False,
+                        "password": "pw", "faults": []}, "starttls": False, "handshake_ok": True, "authmech": None}
+
     def create_connection(addr, *a, **k):
-        c = cur[0]
+        # every connection the client opens - also one it opens on its own
+        # initiative - meets a server of its own; an unexpected one does not
+        # accept the credentials
+        spec = pending.pop(0) if pending else FALLBACK
+        c = Conn(spec)
+        if spec is FALLBACK:
+            info["classes"].add("unexpected-reconnect")
+        conns.append(c)
+        cur[0] = c
         c.srv.on_connect(c.sock)
         return c.sock
+
+    def server_side_violations():
+        for c in conns:
+            for why, raw in c.srv.violations:
+                if why.endswith("before authentication"):
+                    return why, raw
+        return None
 
     def create_ctx(*a, **k):
         c = cur[0]
@@ -133,11 +155,12 @@ def run(steps, introspect=False):
         for i, stp in enumerate(steps):
             if "connect" in stp:
                 spec = stp["connect"]
-                c = Conn(spec)
-                conns.append(c)
-                cur[0] = c
+                pending.append(spec)
                 logged_out = False
                 res = call("connect", "user", "pw", "", starttls=spec["starttls"], authmech=spec["authmech"])
+                c = cur[0]
+                if c is None or c.spec is not spec:
+                    continue
                 det = {"steps": steps[: i + 1], "result": res, "writes": [(ch, d) for ch, d in c.sock.writes],
                        "server_violations": c.srv.violations, "auth_attempts": c.srv.auth_attempts}
                 auth_writes = [(ch, d) for ch, d in c.sock.writes if b"AUTHENTICATE" in d.upper()]
@@ -172,6 +195,11 @@ def run(steps, introspect=False):
                 info["classes"].add("before-connect")
             res = call(name, *SCRIPT_OPS.get(name, ()))
             written = b"".join(d for _, d in c.sock.writes[n0:]) if c else b""
+            v = server_side_violations()
+            if v is not None and not logged_out:
+                fails.append(("script-command-received-by-a-server-that-never-accepted-authentication|%s" % v[0].split(" ")[0],
+                              {"steps": steps[: i + 1], "call": name, "result": res, "server_violation": v[0], "raw": v[1]}))
+                break
             if name == "logout":
                 logged_out = True
                 continue
@@ -193,13 +221,13 @@ def run(steps, introspect=False):
         if introspect:
             spec = {"cfg": {"starttls": False, "sasl": ["PLAIN"], "sasl_tls": None, "version": True, "auth_ok": False, "password": "pw", "faults": []},
                     "starttls": False, "handshake_ok": True, "authmech": None}
-            c = Conn(spec)
-            cur[0] = c
+            pending.append(spec)
             client2 = sl_ms.Client("server.example.org")
             try:
                 client2.connect("user", "pw")
             except sl_ms.Error:
                 pass
+            c = cur[0]
             for mname in sorted(dir(sl_ms.Client)):
                 if mname.startswith("_") or mname in ("connect",):
                     continue
